@@ -116,6 +116,18 @@ class Scheduler:
         self.log = []  # (thread, kind, where) at each switch
         self.lock = threading.Lock()
         self.failed = None
+        self.order = []  # ("start" | "finish", thread) in the order in which it happened
+
+    def finished_before_start(self):
+        """{k: set of threads that had finished before thread k started}"""
+        out = {}
+        done = set()
+        for what, i in self.order:
+            if what == "finish":
+                done.add(i)
+            else:
+                out[i] = set(done)
+        return out
 
     def any_unfinished(self):
         for i, f in enumerate(self.finished):
@@ -157,6 +169,7 @@ class Scheduler:
 
     def _body(self, i, fn):
         self.events[i].wait()
+        self.order.append(("start", i))
         _TLS.idx = i
         _TLS.busy = False
         if self.fine:
@@ -170,6 +183,7 @@ class Scheduler:
         finally:
             sys.settrace(None)
             _TLS.idx = None
+            self.order.append(("finish", i))
             self.finished[i] = True
             nxt = self.policy.on_finish(self, i)
             if nxt is not None:
